@@ -5,7 +5,7 @@
 (*   level 0 of every case is a full dump and is judged by LevelFails of PartitionCheck.tla, i.e. by every predicate   *)
 (*   of Partition.tla verbatim (Cover, Injective, PatchIsSubmesh, NeighbourSymmetricComplete, HaloAgree, ...);         *)
 (*   the jointly refined levels are compact dumps (no coordinates, no index sets of the patch meshes); they are judged  *)
-(*   by the same clauses, evaluated through a table  E[r][d] = Ent(Lv, r, dim, d)  that is computed once per level      *)
+(*   by the same clauses, evaluated through a table  E[r + 1][d + 1] = Ent(Lv, r, dim, d)  that is computed once per level      *)
 (*   (Partition.tla re-evaluates Ent for every pair of ranks, which is quadratic in the number of patches):             *)
 (*     Cover, Injective               verbatim                                                                          *)
 (*     ClosureT                       the entity clauses of PatchIsSubmesh: the patch mesh has exactly the entities of   *)
@@ -19,7 +19,14 @@
 (* behaviour spec merely selects a row, one printed verdict per case.                                                  *)
 EXTENDS PartitionCheck
 
-EntTab(C, Lv) == [r \in Ranks(C) |-> [d \in 0..C.dim |-> Ent(Lv, r, C.dim, d)]]
+\* E[r + 1][d + 1] = Ent(Lv, r, dim, d).  Built with tuple constructors on purpose: TLC evaluates a function constructor
+\* [x \in S |-> e] lazily and re-evaluates e on EVERY application, a tuple is evaluated once.
+EntRow(C, Lv, r) ==
+  IF C.dim = 2 THEN <<Ent(Lv, r, 2, 0), Ent(Lv, r, 2, 1), Ent(Lv, r, 2, 2)>>
+  ELSE <<Ent(Lv, r, 3, 0), Ent(Lv, r, 3, 1), Ent(Lv, r, 3, 2), Ent(Lv, r, 3, 3)>>
+RECURSIVE EntRows(_, _, _)
+EntRows(C, Lv, r) == IF r < 0 THEN << >> ELSE Append(EntRows(C, Lv, r - 1), EntRow(C, Lv, r))
+EntTab(C, Lv) == EntRows(C, Lv, C.nranks - 1)
 
 \* what the clauses below read from a compact level
 CompactShapeOK(C, Lv) ==
@@ -36,11 +43,11 @@ CompactShapeOK(C, Lv) ==
 ClosureT(C, Lv, E) ==
   \A r \in Ranks(C) : \A d \in 0..C.dim :
     /\ N(PatchOf(Lv, r).mesh, d) = Len(Map(Lv, r, d))
-    /\ TRange(Map(Lv, r, d)) = E[r][d]
+    /\ TRange(Map(Lv, r, d)) = E[r + 1][d + 1]
 
 NeighbourT(C, Lv, E) ==
   \A r \in Ranks(C) : LET cm == PatchOf(Lv, r).comm IN
-    /\ TRange(cm) = {s \in Ranks(C) : r # s /\ (\E v \in E[r][0] : v \in E[s][0])}
+    /\ TRange(cm) = {s \in Ranks(C) : r # s /\ (\E v \in E[r + 1][1] : v \in E[s + 1][1])}
     /\ Cardinality(TRange(cm)) = Len(cm)
     /\ {h.rank : h \in TRange(PatchOf(Lv, r).halos)} = TRange(cm) /\ Len(PatchOf(Lv, r).halos) = Len(cm)
 
@@ -62,8 +69,8 @@ HaloSameSetT(C, Lv, E) ==
     LET r == rs[1]  s == rs[2]  hr == HaloOf(Lv, r, s)  hs == HaloOf(Lv, s, r) IN
       (HaloRangeOK(C, Lv, r, hr) /\ HaloRangeOK(C, Lv, s, hs)) =>
         \A d \in 0..C.dim :
-          /\ TRange(MapSeq(Lv, r, d, hr.t[d + 1])) = E[r][d] \cap E[s][d]
-          /\ TRange(MapSeq(Lv, s, d, hs.t[d + 1])) = E[r][d] \cap E[s][d]
+          /\ TRange(MapSeq(Lv, r, d, hr.t[d + 1])) = E[r + 1][d + 1] \cap E[s + 1][d + 1]
+          /\ TRange(MapSeq(Lv, s, d, hs.t[d + 1])) = E[r + 1][d + 1] \cap E[s + 1][d + 1]
           /\ Cardinality(TRange(hr.t[d + 1])) = Len(hr.t[d + 1])
           /\ Cardinality(TRange(hs.t[d + 1])) = Len(hs.t[d + 1])
 
@@ -103,9 +110,9 @@ InfoM(C) ==
            sz == {Len(Map(Lv, r, C.dim)) : r \in Ranks(C)}
        IN [pairs |-> Cardinality(HP),
            \* neighbour pairs that touch in a single vertex only
-           single |-> Cardinality({rs \in HP : Cardinality(E[rs[1]][0] \cap E[rs[2]][0]) = 1}),
+           single |-> Cardinality({rs \in HP : Cardinality(E[rs[1] + 1][1] \cap E[rs[2] + 1][1]) = 1}),
            \* (pair, dimension) combinations with at least two shared entities, i.e. where the order clause says something
-           ordered |-> Cardinality({x \in HP \X (0..C.dim) : Cardinality(E[x[1][1]][x[2]] \cap E[x[1][2]][x[2]]) >= 2}),
+           ordered |-> Cardinality({x \in HP \X (0..C.dim) : Cardinality(E[x[1][1] + 1][x[2] + 1] \cap E[x[1][2] + 1][x[2] + 1]) >= 2}),
            maxpatch |-> CHOOSE m \in sz : \A k \in sz : k <= m,
            cells |-> N(Lv.base, C.dim),
            \* how many patch -> base maps (rank, dimension < dim) are ascending in the base numbering.  This is how the pinned
